@@ -92,11 +92,11 @@ PROPS["C14"] = dict(
 
 PROPS["C03"] = dict(
     lean_modules=["QuaiVerif.Props.C03"],
-    areas=[dict(name="sign", n_quick=400, n_thorough=6000, seeds_thorough=3, n_search=1500)],
+    areas=[dict(name="sign", n_quick=400, n_thorough=6000, seeds_thorough=3, n_search=1500), dict(name="utxo", n_quick=300, n_thorough=6000, seeds_thorough=2, n_search=1500)],
     facts=["tx_fields"],
     rule="a case is one really signed Quai transaction (random key, optional to/data/access list, chain id incl. 0) and: 4 boundary (v,r,s) triples through "
          "ValidateSignatureValues; Sender through 6 signers of equal/different/zero chain id on the same object (cache); 7 single-field mutations carrying the "
-         "original signature; 7 signature mutations (high-S twin, zero, N, out-of-range v). Every case non-trivial; distinct by sub-seed",
+         "original signature; 7 signature mutations (high-S twin, zero, N, out-of-range v). Every case non-trivial; distinct by sub-seed. [utxo, shared with C01] Qi transactions through the real ProcessQiTx with real Schnorr / MuSig2 signatures: right keys, a wrong key on one input, the attacker's own key repeated on a foreign input, other chain id, invalid signatures",
     level_text="Chain-id rejection, signature-range rejection, cache transparency for every sequence of signers, and 'same sender + same signature => same signed "
                "payload' (under explicit injectivity/unforgeability hypotheses) are Lean theorems over the Sender model; that the signed payload covers every "
                "non-signature field is decided over field sets regenerated from ProtoEncode / ProtoEncodeTxSigningData; the model's verdict classes are compared "
@@ -122,34 +122,52 @@ PROPS["C18"] = dict(
 )
 
 PROPS["C04"] = dict(
-    lean_modules=["QuaiVerif.Props.C04"],
-    areas=[dict(name="etxq", n_quick=60, n_thorough=1500, seeds_thorough=2, n_search=200, timeout=3000)],
+    lean_modules=["QuaiVerif.Props.C04", "QuaiVerif.Props.C04b"],
+    areas=[dict(name="etxq", n_quick=60, n_thorough=1500, seeds_thorough=2, n_search=200, timeout=3000),
+           dict(name="c04h", n_quick=12, n_thorough=150, seeds_thorough=3, n_search=16, timeout=3000, confirm_diff=True)],
     rule="a case is one history of 5-300 PushETX / PushETXs(0-3) / PopETX / ReadETX / counter reads on a real StateDB ETX trie with CommitEtxs+reload at "
          "arbitrary points, over real ExternalTx objects (random value/data/access list/type); includes empty-queue pops and index growth past one byte; plus a "
-         "copy-independence probe (mutating NewTx(etx.Inner()) must not change the original). Every case non-trivial; distinct by sub-seed",
+         "copy-independence probe (mutating NewTx(etx.Inner()) must not change the original); one case in ~30 (and always the second) runs 520 operations so "
+         "that the newest index passes 256 while the oldest still fits one byte. Every case non-trivial; distinct by sub-seed. [c04h] a case is one 50-block "
+         "history of a real prime / region / zone hierarchy driven by the chainworld generator (transfers, contract calls, Quai->Qi and Qi->Quai conversions "
+         "with slippage bounds, lockup claims, Qi spends, coinbases to both ledgers), the harness mining each block with real work of a chosen order (zone / "
+         "region / prime); both sides of the conversion-discount fork (one case in four before it)",
     level_text="(a) the destination queue refines a FIFO list for every push/pop history and (b) acceptance implies the block's inbound ETXs are exactly the "
                "next queue items with the minimum-inclusion bound met are Lean theorems (invariant + induction over histories); the queue model, and the ETX-trie "
                "root recomputed by the Lean trie model with concrete keccak, are compared with the real StateDB on random histories incl. reload.",
-    level_note="PARTIAL: part (c) of the property - exactly-once, in-order routing of every emitted ETX through region/prime (manifests, rollups, "
-               "CollectNewlyConfirmedEtxs, FilterToSub) and across reorgs - is not modelled yet: it needs the level-isolation harness (DESIGN section 5). The "
-               "acceptance rule (b) is proved on the model; its tie to Process is through the shared pop semantics only until the zone chain harness exists.",
+    level_note="(c) routing: 'what the zone has received plus what is held at a definite stage of the route is a permutation of what its blocks emitted' "
+               "(nothing lost, nothing duplicated; with distinct ETXs none delivered twice), 'a region-order block delivers every region-confirmed ETX rolled up "
+               "so far and nothing else', 'a prime-order block delivers exactly the coinbases / conversions rolled up before it, largest slippage bound first' "
+               "are Lean theorems over the routing model (C04b), which is run in lock-step with a real prime / region / zone hierarchy (three core.Core wired "
+               "through their dom / sub interfaces; area c04h): per block the model must name, in order, the ETXs the zone receives; T3 follows every ETX by "
+               "identity from emission to execution (received once, unaltered apart from conversion repricing, executed once in the order received). "
+               "PARTIAL: one zone per region (a second zone cannot be started from genesis: ComputeExpansionNumber special-cases zone 0-0), no reorgs at "
+               "region / prime level, stability of prime's sort for equal slippage bounds is checked by T2 only.",
     assumptions=["keccak256 collision-free for the secure-trie keys (index keys are minimal big-endian, counter keys are 32-byte strings with leading zeros)"],
 )
 
 PROPS["C20"] = dict(
     lean_modules=["QuaiVerif.Props.C20"],
-    areas=[dict(name="conv", n_quick=800, n_thorough=20000, seeds_thorough=3, n_search=3000)],
+    areas=[dict(name="conv", n_quick=800, n_thorough=20000, seeds_thorough=3, n_search=3000),
+           dict(name="c04h", n_quick=12, n_thorough=150, seeds_thorough=3, n_search=16, timeout=3000, confirm_diff=True)],
     facts=["denominations", "conv_pipeline_fingerprint"],
     rule="a case is one block context (PrimeTerminusNumber around the KawPow / SHA-equivalent / kQuai-reset forks or early, random number, difficulty, "
          "exchange rate, share counts) with 6 amounts (0, dust, minimum conversion, 2^60..2^120, random) through the real QiToQuai / QuaiToQi both ways, "
-         "4 amounts through FindMinDenominations, 4 (value, mean) pairs (incl. value = mean, 10*mean, 10*mean+1) through ApplyCubicDiscount",
+         "4 amounts through FindMinDenominations, 4 (value, mean) pairs (incl. value = mean, 10*mean, 10*mean+1) through ApplyCubicDiscount, and a probe that "
+         "repricing copies of a conversion ETX twice leaves the cached ETX untouched. [c04h, shared with C04] every conversion the chainworld users make on a "
+         "real prime / region / zone hierarchy (both directions, slippage bounds 0..9999 bp and none, amounts up to thousands of times the minimum) is followed "
+         "from the zone block that debits it through prime's repricing to the zone block that receives it",
     level_text="Round trips at a fixed rate never gain, monotonicity of unit conversion, 'repriced amount is between 10% of the original and the original', "
                "'exactly one outcome (bounded conversion or full refund)' and 'denominations sum exactly' are Lean theorems; the denomination table and a "
                "fingerprint of the prime repricing block are regenerated from source; QiToQuai / QuaiToQi / FindMinDenominations are run against the model.",
-    level_note="PARTIAL: the prime repricing pipeline (sort by slip, running amounts, token-choice set, new exchange rate) is inline in Slice.Append and is tied "
-               "to the hand-written model only by a source fingerprint (any change to that block breaks C20_conv_pipeline_unchanged and is reported "
-               "no-failing-input-found) until the level-isolation harness exists. ApplyCubicDiscount (big.Float) is a parameter of the theorems with the "
-               "hypothesis D <= A, which the harness checks on the real function. Origin debit (C05/C01) and destination minting/lock (C13) are those properties' checks.",
+    level_note="The prime repricing pipeline is inline in Slice.Append: its per-ETX arithmetic is the Reprice model (theorems above), a source fingerprint "
+               "reports any edit of that block, and on the real hierarchy (area c04h) every conversion that comes out of prime is checked (T3) to be either a "
+               "ConversionRevert carrying exactly the original amount or a conversion credited between the rate value of 10 % of the original and the rate value "
+               "of the original, at the exchange rate prime derived for that block (read from the next prime pending header). ApplyCubicDiscount (big.Float) is a "
+               "parameter of the theorems with the hypothesis D <= A: true of the current protocol (checked on the real function), false before the "
+               "ConversionSlipChangeBlock fork - there the bound fails on the real chain too (known finding, Lean counterexample). PARTIAL: the running "
+               "amounts / token-choice set / new exchange rate computation is not modelled (its result is read from the chain); origin debit (C05/C01) and "
+               "destination minting/lock (C13) are those properties' checks.",
     assumptions=["cubic discount returns at most its argument (checked by T3)", "k-quai discount <= KQuaiDiscountMultiplier (header field range)",
                  "after the kQuai reset fork block difficulty exceeds KQuaiDifficultyDivisor (else CalculateQuaiReward is negative)"],
 )
@@ -196,7 +214,7 @@ PROPS["C01"] = dict(
 )
 
 PROPS["C02"] = dict(
-    lean_modules=["QuaiVerif.Props.C02"],
+    lean_modules=["QuaiVerif.Props.C02", "QuaiVerif.Props.C05"],
     areas=[dict(name="evm", n_quick=3000, n_thorough=40000, seeds_thorough=3, n_search=8000)],
     rule="(shared area with C05) the vtree cases: a tree (depth <= 3, up to 12 contracts with random balances) of CALL / CALLCODE with values 0-400, DELEGATECALL, "
          "STATICCALL, ETX emissions, SELFDESTRUCT to any account incl. itself, frames ending in STOP or REVERT, both sides of the self-destruct refund fork, run "
@@ -321,7 +339,7 @@ PROPS["C11"] = dict(
 
 PROPS["C09"] = dict(
     lean_modules=["QuaiVerif.Props.C09"],
-    areas=[dict(name="c09", n_quick=4, n_thorough=60, seeds_thorough=3, n_search=12, timeout=3000)],
+    areas=[dict(name="c09", spec_ops=("diff", "limit"), n_quick=4, n_thorough=60, seeds_thorough=3, n_search=12, timeout=3000)],
     facts=["verify_header_compares"],
     rule="a case is one 30-block history of the real zone node (see C06) with miner-chosen block times of 0-3 s (10%: up to 39 s) and zone / region blocks; for "
          "every block the model's CalcDifficulty, gas / state limit ramp, TotalLogEntropy, DeltaLogEntropy and CalcOrder are evaluated on the real header "
